@@ -204,7 +204,7 @@ def _check_stage(res, kind, P, Pprev, obs_t, t, N, det):
         prev = np.asarray(args[0][0]).astype(int).reshape(-1)
         prev = np.broadcast_to(prev, (N,))
         if not np.all(y == obs_t):
-            res.violate(PROP, f"observation-not-held:{sig}", y=y, obs=obs_t, **det)
+            res.violate(PROP, f"observation-not-held:{sig}", y=y, obs_t=obs_t, **det)
         if Pprev is not None:
             want_prev = np.asarray(Pprev.traces.get_retval()).astype(int)
             if not np.array_equal(prev, want_prev):
@@ -220,7 +220,7 @@ def _check_stage(res, kind, P, Pprev, obs_t, t, N, det):
             inc = inc - Q_EXT[obs_t, prev, x]
         base = np.zeros(N) if Pprev is None else np.asarray(Pprev.log_weights, np.float64)
         if not H.close(lw, base + inc, rtol=1e-4, atol=1e-4):
-            res.violate(PROP, f"particle-weight:{sig}", log_weights=lw, reference=base + inc, x=x, prev=prev, obs=obs_t, **det)
+            res.violate(PROP, f"particle-weight:{sig}", log_weights=lw, reference=base + inc, x=x, prev=prev, obs_t=obs_t, **det)
         sc = np.asarray(P.traces._score if hasattr(P.traces, "_score") else P.traces.get_score(), np.float64)
         if np.shape(sc) != (N,):
             res.violate(PROP, f"particle-score-shape:{sig}", shape=list(np.shape(sc)), **det)
